@@ -173,10 +173,12 @@ func (vc *VC) ptrToUintptr(a SV) SV {
 		sz := vc.eng.sizeof(lv.ObjT)
 		off = "(bvmul " + lv.Idx + " " + bvLitI(sz, 64) + ")"
 	}
-	return SV{L: []string{vc.def(bvSort(64), "(bvadd (addrof "+lv.Ref+") "+off+")")}, LV: lv}
+	return SV{L: []string{vc.def(bvSort(64), "(bvadd (addrof "+lv.Ref+") "+off+")")}, LV: lv, POff: a.POff}
 }
 
 func (vc *VC) uintptrToPtr(a SV) SV {
-	vc.fail("conversion uintptr -> unsafe.Pointer outside the modelled patterns")
-	return SV{}
+	if a.LV == nil {
+		vc.fail("conversion uintptr -> unsafe.Pointer of a value not derived from a pointer")
+	}
+	return SV{L: []string{a.LV.Ref}, LV: a.LV, POff: a.POff}
 }
